@@ -113,6 +113,31 @@ def evaluate(vs, ls, unis=(), level=2, unhashable=True, searches=True):
     return out
 
 
+def f_q4(e, v):
+    return (_LI.get(id(e), 0) + 2 * _vix(v)) % 3 != 0
+
+
+def f_q5(e, v):
+    return _LI.get(id(e), 0) % 3 != 1
+
+
+def partial(vs, ls, i, n):
+    """The first n of a fixed list of 54 distinct (cacheable) neighbors() questions about vs[i]."""
+    from edgegraph.traversal import helpers
+
+    global _VI, _LI
+    _VI = {id(v): k for k, v in enumerate(vs)}
+    _LI = {id(l): k for k, l in enumerate(ls)}
+    vl = lambda seq: [_vix(x) for x in seq]
+    qs = [(d, u, fn, f) for fn, f in (("none", None), ("accept", f_accept), ("select", f_select), ("q4", f_q4), ("q5", f_q5), ("method", None)) for d in DIRS for u in UNKS]
+    out = []
+    for d, u, fn, f in qs[:n]:
+        if fn == "method":
+            f = MF.accept
+        out.append((f"nb v{i} d{d} u{u} {fn}", _call(lambda: helpers.neighbors(vs[i], d, u, f), vl)))
+    return out
+
+
 def first_difference(a, b):
     if len(a) != len(b):
         return f"battery lengths differ: {len(a)} vs {len(b)}"
